@@ -26,6 +26,7 @@ import math
 import random
 import re
 import traceback
+import warnings
 from fractions import Fraction
 
 import numpy as np
@@ -67,7 +68,15 @@ def chol_input(c, exp):
 
 
 def run_chol_case(c, exp):
-    """Returns None if the real pair behaves as specified, else a description."""
+    """Returns None if the real pair behaves as specified (global state preserved included), else a description."""
+    with Guard() as g:
+        bad = _run_chol_case(c, exp, g)
+    if not bad and g.a != g.b:
+        bad = GS_MSG % (g.b, g.a)
+    return bad
+
+
+def _run_chol_case(c, exp, g):
     m = _mod()
     ab = chol_input(c, exp)
     keep = ab.copy()
@@ -76,6 +85,8 @@ def run_chol_case(c, exp):
         ret = m.cholesky_band(ab, mininf=c['minf2'] / 2.0) if c['minf2'] else m.cholesky_band(ab)
     except Exception as ex:
         return 'cholesky_band raised ' + short_exc(ex)
+    finally:
+        g.mark()
     if not (isinstance(ret, tuple) and len(ret) == 2):
         return 'cholesky_band did not return a 2-tuple'
     if not exp['ok']:
@@ -98,6 +109,8 @@ def run_chol_case(c, exp):
             x = m.cholesky_solve(fac.copy(), b.copy())
         except Exception as ex:
             return 'cholesky_solve (%s) raised %s' % (name, short_exc(ex))
+        finally:
+            g.mark()
         x = np.asarray(x)
         if x.shape != wx.shape:
             return 'solution has shape %r, expected %r' % (x.shape, wx.shape)
@@ -123,18 +136,56 @@ def make_sset(k, t, notes=None):
     return s
 
 
+def gstate():
+    """The process-wide state a call could leave changed: numpy's floating-point error handling.  (The list of warning
+    filters is not observed: pydl never edits it, and lazy imports inside numpy / scipy may append to it.)"""
+    e = np.geterr()
+    return [str(e['divide']), str(e['over']), str(e['under']), str(e['invalid'])]
+
+
+GS_MSG = 'the call changed the process-wide floating-point error handling (divide, over, under, invalid): %s -> %s'
+RESTORE = [True]          # False inside a process history: nothing is restored between its calls
+
+
+class Guard(object):
+    """Observes the global state around one real call; unless a process history is being recorded the state found
+    before the call is put back afterwards, so that one leak is reported once and the harness's own numerics are safe."""
+    def __enter__(self):
+        self.b = gstate()
+        self.err = np.geterr()
+        self.filters = list(warnings.filters)
+        self.a = self.b
+        return self
+
+    def mark(self):
+        """Observe now (right after a real call): keep the first state that differs from the one found, then restore."""
+        cur = gstate()
+        if cur != self.b and self.a == self.b:
+            self.a = cur
+        if RESTORE[0]:
+            np.seterr(**self.err)
+            warnings.filters[:] = self.filters
+
+    def __exit__(self, *exc):
+        self.mark()
+        return False
+
+
 def call_fit(s, x, y, w):
-    """One real fit.  Returns dict(st, after (good knots 1-based), finite, exc, yfit)."""
+    """One real fit.  Returns dict(st, after (good knots 1-based), finite, exc, yfit, gsb, gsa)."""
     before = np.array(s.mask, dtype=bool).copy()
+    g = Guard()
     try:
-        ret = s.fit(x, y, w)
+        with g:
+            ret = s.fit(x, y, w)
     except Exception as ex:
         return {'st': None, 'exc': short_exc(ex), 'tb': traceback.format_exc()[-600:], 'before': before,
-                'after': np.array(s.mask, dtype=bool).copy(), 'finite': False, 'yfit': None}
+                'after': np.array(s.mask, dtype=bool).copy(), 'finite': False, 'yfit': None, 'gsb': g.b, 'gsa': g.a}
     st, yfit = ret
     okst = isinstance(st, (int, np.integer)) and not isinstance(st, (bool, np.bool_))
-    fin = bool(np.all(np.isfinite(np.asarray(s.coeff, dtype='d'))) and np.all(np.isfinite(np.asarray(yfit, dtype='d'))))
-    return {'st': int(st) if okst else repr(st), 'exc': None, 'before': before,
+    with np.errstate(all='ignore'):
+        fin = bool(np.all(np.isfinite(np.asarray(s.coeff, dtype='d'))) and np.all(np.isfinite(np.asarray(yfit, dtype='d'))))
+    return {'st': int(st) if okst else repr(st), 'exc': None, 'before': before, 'gsb': g.b, 'gsa': g.a,
             'after': np.array(s.mask, dtype=bool).copy(), 'finite': fin, 'yfit': np.asarray(yfit, dtype='d')}
 
 
@@ -146,6 +197,8 @@ def judge_fit(obs, allowed, droppable):
     """Is the observed answer of one fit a transition the specification admits?  (allowed/droppable are TLC's)"""
     if obs['exc']:
         return 'fit raised ' + obs['exc']
+    if obs.get('gsb') != obs.get('gsa'):
+        return GS_MSG % (obs.get('gsb'), obs.get('gsa'))
     if obs['st'] not in (0, -1, -2):
         return 'undocumented status %r' % (obs['st'],)
     if not obs['finite']:
@@ -402,6 +455,14 @@ def masked_measure(s, x, y, w, yfit, rng, poly=None):
     parts = {}
     if xin.size == 0:
         return {'disc': 0, 'bdisc': 0, 'parts': parts, 'exc': '', 'condok': False}
+    with Guard() as g:
+        out = _masked_measure(s, x, y, w, yfit, rng, poly, k, mk, tm, lo, hi, inr, xin, parts)
+    if g.a != g.b and not out['exc']:
+        out['exc'] = GS_MSG % (g.b, g.a) + ' (action / bsplvn / value)'
+    return out
+
+
+def _masked_measure(s, x, y, w, yfit, rng, poly, k, mk, tm, lo, hi, inr, xin, parts):
     try:
         A = design_matrix(tm, k, np.asarray(xin, dtype='d'))
         n = tm.size - k
@@ -468,14 +529,16 @@ def illcond(s, x, w):
         return False
 
 
-def masked_record(law, nord, S, pc, maskgood, st, finite, meas, src, data=None, ill=None):
-    """ill: illcond() of the object BEFORE the fit (the mask a -1 leaves behind is not the one the fit was made on)."""
+def masked_record(law, nord, S, pc, maskgood, st, finite, meas, src, data=None, ill=None, gs=None):
+    """ill: illcond() of the object BEFORE the fit (the mask a -1 leaves behind is not the one the fit was made on).
+    gs: (global state before, after) the fit."""
+    gs = gs or (gstate(), gstate())
     if ill is not None:
         meas = dict(meas, condok=bool(meas.get('condok', False) and not ill) if st == 0 else (not ill))
     return {'kind': 'fitlaw', 'law': law, 'nord': nord, 'S': S, 'pc': list(pc), 'mask': sorted(int(g) for g in maskgood),
             'st': [st if isinstance(st, int) else 99], 'finite': bool(finite), 'exc': meas['exc'], 'disc': meas['disc'],
             'bdisc': meas['bdisc'], 'condok': bool(meas.get('condok', False)), 'tol': LAWTOL, 'altered': [], 'zeroidx': [], 'parts': meas['parts'], 'src': src,
-            '_data': data}
+            'gsb': list(gs[0]), 'gsa': list(gs[1]), '_data': data}
 
 
 def judge_records(ctx, recs, chunk=1500):
@@ -510,6 +573,13 @@ def band_of(A, bw):
 
 
 def chol_record(ab, b, n, bw, intmat, pdclaim):
+    with Guard() as g:
+        rec = _chol_record(ab, b, n, bw, intmat, pdclaim, g)
+    rec['gsb'], rec['gsa'] = g.b, g.a
+    return rec
+
+
+def _chol_record(ab, b, n, bw, intmat, pdclaim, g):
     m = _mod()
     finite = bool(np.all(np.isfinite(ab)))
     keep = ab.copy()
@@ -519,6 +589,7 @@ def chol_record(ab, b, n, bw, intmat, pdclaim):
            'L': [[0]], 'x': [0], 'ldev': 0, 'xdev': 0, 'resL': 0, 'resX': 0, 'exc': ''}
     try:
         ret = m.cholesky_band(ab)
+        g.mark()
         rec['okobs'] = bool(is_success(ret[0]))
         if not rec['okobs']:
             rec['same'] = bool(isinstance(ret[1], np.ndarray) and ret[1].shape == keep.shape and
@@ -526,7 +597,9 @@ def chol_record(ab, b, n, bw, intmat, pdclaim):
             return rec
         L = np.asarray(ret[1], dtype='d')
         x = np.asarray(m.cholesky_solve(L.copy(), np.asarray(b, dtype='d').copy()), dtype='d')
+        g.mark()
     except Exception as ex:
+        g.mark()
         rec['exc'] = short_exc(ex)
         return rec
     if L.shape != keep.shape or x.shape != (n + bw,):
@@ -669,7 +742,8 @@ def law_records(rng, count, quick, stats):
         k, bk, x, y, w, amp, sparse = float_problem(rng, quick)
         rec = {'kind': 'fitlaw', 'law': law, 'nord': k, 'S': 0, 'pc': [0], 'st': [], 'finite': True, 'exc': '',
                'disc': 0, 'bdisc': 0, 'condok': True, 'mask': [], 'tol': LAWTOL, 'altered': [], 'zeroidx': [],
-               '_sparse': sparse, '_xdtype': str(x.dtype)}
+               '_sparse': sparse, '_xdtype': str(x.dtype), 'gsb': gstate(), 'gsa': gstate()}
+        obsl = []
         isint = x.dtype.kind in 'iu'
         if isint:
             rec['tol'] = int(DT_RTOL.get(str(x.dtype), 0) / 1e-9) or LAWTOL      # narrow integers promote to float32
@@ -699,6 +773,7 @@ def law_records(rng, count, quick, stats):
         def fit1(yy, ww):
             s1 = sset_on(k, bk, x)
             o = call_fit(s1, x, yy, ww)
+            obsl.append(o)
             return o, np.asarray(s1.coeff, dtype='d').copy(), s1
         try:
             if law == 'lstsq':
@@ -758,6 +833,10 @@ def law_records(rng, count, quick, stats):
         except Exception as ex:
             rec['exc'] = 'harness-side: ' + short_exc(ex)
         rec['st'] = [v if isinstance(v, int) else 99 for v in rec['st']]
+        for o in obsl:
+            if o['gsb'] != o['gsa']:
+                rec['gsb'], rec['gsa'] = o['gsb'], o['gsa']
+                break
         stats['maxdisc_' + law] = max(stats.get('maxdisc_' + law, 0), rec['disc'])
         recs.append(rec)
     return recs
@@ -815,12 +894,13 @@ def loop_history(rng, notes, big):
             meas = masked_measure(s, x, y, w, o['yfit'], rng, poly=pf) if o['st'] == 0 else \
                 masked_measure(s, x, y, w, None, rng)
             mrecs.append(masked_record('masked-poly' if pf else 'masked', nord, S, pc, good(o['before']), o['st'], o['finite'],
-                                       meas, 'loop/' + style, {'x': x.tolist(), 'y': y.tolist(), 'w': w.tolist()}, ill=ill))
+                                       meas, 'loop/' + style, {'x': x.tolist(), 'y': y.tolist(), 'w': w.tolist()}, ill=ill,
+                                       gs=(o['gsb'], o['gsa'])))
         if o['exc']:
             events.append({'a': 'raise', 'exc': o['exc'], 'mask': good(o['before'])})
             break
         events.append({'a': 'fit', 'mask': good(o['before']), 'st': o['st'] if isinstance(o['st'], int) else 99,
-                       'after': good(o['after']), 'finite': o['finite'], 'illcond': ill})
+                       'after': good(o['after']), 'finite': o['finite'], 'illcond': ill, 'gsb': o['gsb'], 'gsa': o['gsa'], 'argsok': True})
         if o['st'] in (0, -2) or not isinstance(o['st'], int):
             break
     return {'nord': nord, 'S': S, 'pc': pc, 'maxfits': S, 'events': events, 'src': 'loop/' + style,
@@ -829,9 +909,10 @@ def loop_history(rng, notes, big):
 
 class Recorder(object):
     """Wraps bspline.fit for the duration of one iterfit call."""
-    def __init__(self, m, rng=None, poly=None, always=False):
+    def __init__(self, m, rng=None, poly=None, always=False, expect=None):
         self.m = m
         self.always = always
+        self.expect = expect        # the caller's (x, y, invvar): what every fit must be handed, sorted by x
         self.events = []
         self.orig = m.bspline.fit
         self.rng = rng
@@ -844,19 +925,31 @@ class Recorder(object):
         def fit(sself, xdata, ydata, invvar, x2=None):
             before = np.array(sself.mask, dtype=bool).copy()
             ill = illcond(sself, np.asarray(xdata, dtype='d'), np.asarray(invvar, dtype='d'))
+            argsok = True
+            if rec.expect is not None:
+                # abstraction: the fit is handed the caller's triples (weights clipped at 0), in non-decreasing x
+                def canon(xx, yy, ww):
+                    t3 = np.array([np.asarray(xx, dtype='d'), np.asarray(yy, dtype='d'), np.clip(np.asarray(ww, dtype='d'), 0, None)])
+                    return t3[:, np.lexsort(t3[::-1])]
+                got, want = canon(xdata, ydata, invvar), canon(*rec.expect)
+                argsok = bool(got.shape == want.shape and np.array_equal(got, want) and
+                              np.all(np.diff(np.asarray(xdata, dtype='d')) >= 0))
+            g = Guard()
             try:
-                ret = rec.orig(sself, xdata, ydata, invvar, x2=x2)
+                with g:
+                    ret = rec.orig(sself, xdata, ydata, invvar, x2=x2)
             except Exception as ex:
                 rec.events.append({'a': 'raise', 'exc': short_exc(ex), 'mask': good(before)})
                 raise
             st, yfit = ret
             fin = bool(np.all(np.isfinite(np.asarray(sself.coeff, dtype='d'))) and np.all(np.isfinite(np.asarray(yfit, dtype='d'))))
             rec.events.append({'a': 'fit', 'mask': good(before), 'after': good(np.array(sself.mask, dtype=bool)),
-                               'st': int(st) if isinstance(st, (int, np.integer)) else 99, 'finite': fin, 'illcond': ill})
+                               'st': int(st) if isinstance(st, (int, np.integer)) else 99, 'finite': fin, 'illcond': ill,
+                               'gsb': g.b, 'gsa': g.a, 'argsok': argsok})
             if rec.rng is not None and (rec.always or not before.all()) and x2 is None:
                 st0 = isinstance(st, (int, np.integer)) and int(st) == 0
                 xd, yd, wd = np.asarray(xdata), np.asarray(ydata, dtype='d'), np.asarray(invvar, dtype='d')
-                rec.meas.append((good(before), int(st) if isinstance(st, (int, np.integer)) else 99, fin, ill,
+                rec.meas.append((good(before), int(st) if isinstance(st, (int, np.integer)) else 99, fin, ill, (g.b, g.a),
                                  masked_measure(sself, xd, yd, wd, np.asarray(yfit, dtype='d') if st0 else None, rec.rng,
                                                 poly=rec.poly if st0 else None)))
             return ret
@@ -930,7 +1023,7 @@ def iterfit_history(rng, stats):
     if rng.random() < 0.5:
         rng.shuffle(perm)
     events, sset, exc = [], None, None
-    with Recorder(m, rng, pf, always=(xdtype != 'd')) as rec:
+    with Recorder(m, rng, pf, always=(xdtype != 'd'), expect=(x, y, w)) as rec:
         try:
             sset, outmask = m.iterfit(x[perm], y[perm], invvar=w[perm], upper=1e30, lower=1e30, maxiter=maxiter, **kw)
         except ValueError as ex:
@@ -969,11 +1062,119 @@ def iterfit_history(rng, stats):
     nk = knots.size
     lawname = lambda gk: ('intx' if len(gk) == nk else 'masked-poly' if pf else 'masked')
     hist['masked'] = [masked_record(lawname(gk), nord, ab[0], ab[1], gk, st, fin2, meas, src, hist['data'],
-                                    ill=ill2) for gk, st, fin2, ill2, meas in rec.meas]
+                                    ill=ill2, gs=gs2) for gk, st, fin2, ill2, gs2, meas in rec.meas]
     if xdtype in DT_RTOL:
         for mr in hist['masked']:
             mr['tol'] = int(DT_RTOL[xdtype] / 1e-9)
     return hist
+
+
+# ---------------------------------------------------------------------------------------------
+# code -> spec: process histories (calls of every kind on different objects, nothing restored in between)
+def proc_chol(rng, op):
+    """op: P positive definite; R refused through the factorisation itself (positive diagonal, indefinite);
+    B refused by the diagonal screening (a zero diagonal entry); N a non-finite entry."""
+    m = _mod()
+    bw = rng.randint(2, 4)
+    for _ in range(30):
+        n = rng.randint(2, 7)
+        L = np.zeros((n, n), dtype=np.int64)
+        for i in range(n):
+            L[i, i] = rng.randint(1, 3)
+            for j in range(max(0, i - bw + 1), i):
+                L[i, j] = rng.randint(-3, 3)
+        d = np.ones(n, dtype=np.int64)
+        if op == 'R':
+            d[rng.randrange(n)] = -1
+        A = (L * d).dot(L.T)
+        if op != 'R' or (np.all(np.diag(A) > 0)):
+            break
+    else:
+        n, bw, A = 2, 2, np.array([[1, 2], [2, 1]], dtype=np.int64)
+    if op == 'B':
+        A = A.copy()
+        j0 = rng.randrange(n)
+        A[j0, j0] = 0
+    ab = band_of(A, bw).astype('d')
+    if op == 'N':
+        ab[0, rng.randrange(n)] = rng.choice([np.inf, np.nan])
+    keep = ab.copy()
+    ev = {'op': 'chol', 'which': op, 'n': n, 'bw': bw, 'finite': bool(np.all(np.isfinite(ab))),
+          'ab': [[int(v) if np.isfinite(v) else 0 for v in row] for row in ab], 'okobs': False, 'same': True, 'exc': ''}
+    g = Guard()
+    try:
+        with g:
+            ret = m.cholesky_band(ab)
+        ev['okobs'] = bool(is_success(ret[0]))
+        if not ev['okobs']:
+            ev['same'] = bool(isinstance(ret[1], np.ndarray) and ret[1].shape == keep.shape and np.array_equal(ret[1], keep, equal_nan=True))
+    except Exception as ex:
+        ev['exc'] = short_exc(ex)
+    ev['gsb'], ev['gsa'] = g.b, g.a
+    return ev
+
+
+def proc_fit(rng, op, notes):
+    """op: W well supported; G a gap wider than the spacing; Z all weights zero; I one non-finite weight;
+    Q all data at one abscissa.  The fit is repeated while it answers -1 (as iterfit does)."""
+    nord = rng.randint(1, 4)
+    S = rng.randint(2, 5)
+    pc = [0] * (2 * S + 1)
+    for c0 in range(S):
+        pc[2 * c0 + 1] = nord + 1
+    if op == 'G':
+        for c0 in rng.sample(range(S), rng.randint(1, S - 1)):
+            pc[2 * c0 + 1] = 0
+    x, y, w = cell_data(nord, S, pc, rng, sprinkle=False)
+    nonfinite = False
+    if op == 'Z':
+        w = np.zeros_like(w)
+        pc = [0] * (2 * S + 1)
+    elif op == 'I':
+        w = w.copy()
+        w[rng.randrange(w.size)] = rng.choice([np.inf, np.inf, np.nan])
+        nonfinite = True
+    elif op == 'Q':
+        c0 = rng.randrange(S)
+        x = np.full(6, c0 + 0.5)
+        y = np.arange(6, dtype='d')
+        w = np.ones(6)
+        pc = [0] * (2 * S + 1)
+        pc[2 * c0 + 1] = 1
+    s = make_sset(nord, knots_for(nord, S), notes)
+    out = []
+    for _ in range(S):
+        with np.errstate(all='ignore'):
+            ill = (not nonfinite) and illcond(s, x, w)
+        o = call_fit(s, x, y, w)
+        out.append({'op': 'fit', 'which': op, 'nord': nord, 'S': S, 'pc': pc, 'mask': good(o['before']), 'after': good(o['after']),
+                    'st': o['st'] if isinstance(o['st'], int) else 99, 'finite': bool(o['finite']) or bool(o['exc']),
+                    'illcond': bool(ill), 'nonfinite': nonfinite, 'exc': o['exc'] or '', 'gsb': o['gsb'], 'gsa': o['gsa']})
+        if o['exc'] or o['st'] != -1:
+            break
+    return out
+
+
+def process_history(seed, notes):
+    """One process history: 6-9 operations in random order, at least one refusal through the factorisation; the global
+    state is NOT restored between the calls (it is at the end)."""
+    rng = random.Random(seed)
+    ops = ['R'] + [rng.choice('RRBNPWWGGZIIQQ') for _ in range(rng.randint(5, 8))]
+    rng.shuffle(ops)
+    events = []
+    err, filt = np.geterr(), list(warnings.filters)
+    RESTORE[0] = False
+    try:
+        for op in ops:
+            if op in 'RBNP':
+                events.append(proc_chol(rng, op))
+            else:
+                events.extend(proc_fit(rng, op, notes))
+    finally:
+        RESTORE[0] = True
+        np.seterr(**err)
+        warnings.filters[:] = filt
+    return {'kind': 'proc', 'events': events, 'ops': ''.join(ops), 'exc': '', '_pseed': seed}
 
 
 _POS = re.compile(r'<<"C09POS", (\d+), (\d+)>>')
@@ -1166,7 +1367,7 @@ def run_machine(ctx, notes):
                 dd = {'x': data[0].tolist(), 'y': data[1].tolist(), 'w': data[2].tolist()}
                 meas = masked_measure(sobj, data[0], data[1], data[2], obs['yfit'], mrng)
                 masked.append(masked_record('masked', P['nord'], P['S'], P['pc'], good(obs['before']), obs['st'], obs['finite'],
-                                            meas, 'machine', dd, ill=obs['ill']))
+                                            meas, 'machine', dd, ill=obs['ill'], gs=(obs['gsb'], obs['gsa'])))
                 if obs['st'] == 0:
                     # the same object state, polynomial data of degree < order
                     s2 = make_sset(P['nord'], knots_for(P['nord'], P['S']), notes)
@@ -1179,7 +1380,8 @@ def run_machine(ctx, notes):
                     else:
                         meas2 = masked_measure(s2, data[0], yp, data[2], o2['yfit'], mrng, poly=pf)
                     masked.append(masked_record('masked-poly', P['nord'], P['S'], P['pc'], good(obs['before']), o2['st'],
-                                                o2['finite'], meas2, 'machine', dict(dd, y=yp.tolist()), ill=obs['ill']))
+                                                o2['finite'], meas2, 'machine', dict(dd, y=yp.tolist()), ill=obs['ill'],
+                                                gs=(o2['gsb'], o2['gsa'])))
         ctx.evaluated(1, 'machine-step')
         ctx.validated()
         stat[obs['st']] = stat.get(obs['st'], 0) + 1
@@ -1294,6 +1496,11 @@ def run_records(ctx, notes):
     stats['weak_histories_judged'] = len(weak)
     masked = notes.pop('_masked_records', [])
     recs += masked
+    procs = [process_history(ctx.seed * 1000 + k, notes) for k in range(60 if ctx.quick else 600)]
+    recs += procs
+    stats['process_histories'] = len(procs)
+    stats['process_history_calls'] = sum(len(pr['events']) for pr in procs)
+    stats['process_history_fallback_refusals'] = sum(1 for pr in procs for e in pr['events'] if e['op'] == 'chol' and e['which'] == 'R')
     bad, compared = judge_records(ctx, recs)
     # binding self-test: accepted records with ONE observed field falsified must all be rejected by the same judge
     fals = []
@@ -1322,12 +1529,24 @@ def run_records(ctx, notes):
         elif rec['kind'] == 'fitlaw':
             if k not in compared:
                 continue
-            if m == 0:
+            if len(fals) % 7 == 3:
+                r2['gsa'] = list(r2['gsa'][:3]) + ['raise']      # global state left changed
+            elif m == 0:
                 r2['disc'] = r2['tol'] * 50 + 7     # coefficients beyond tolerance
             elif m == 1:
                 r2['finite'] = False
             else:
                 r2['bdisc'] = r2['tol'] * 50 + 7    # basis / value() inconsistent
+        elif rec['kind'] == 'proc':
+            e0 = r2['events'][len(fals) % len(r2['events'])]
+            if m == 0:
+                e0['gsa'] = ['raise'] + list(e0['gsa'][1:])       # floating-point error handling left changed
+            elif m == 1:
+                e0['exc'] = 'FloatingPointError: invalid value encountered in multiply'
+            elif e0['op'] == 'chol':
+                e0['gsa'] = [e0['gsa'][0], 'raise'] + list(e0['gsa'][2:])        # overflow handling left changed
+            else:
+                e0['st'] = 7
         elif rec['kind'] == 'run':
             ev = [e for e in r2['events'] if e['a'] == 'fit']
             if not ev:
@@ -1487,7 +1706,7 @@ def replay(ctx, case):
                     ev.append({'a': 'raise', 'exc': o['exc'], 'mask': good(o['before'])})
                     break
                 ev.append({'a': 'fit', 'mask': good(o['before']), 'st': o['st'], 'after': good(o['after']), 'finite': o['finite'],
-                           'illcond': ill})
+                           'illcond': ill, 'gsb': o['gsb'], 'gsa': o['gsa'], 'argsok': True})
                 if o['st'] in (0, -2):
                     break
             print('events now:', ev)
@@ -1511,7 +1730,12 @@ def replay(ctx, case):
                 masked_measure(s, x, y, w, o['yfit'] if o['st'] == 0 else None, random.Random(1))
             print('measured now (units of 1e-9):', meas)
             rec = masked_record(rec['law'], rec['nord'], rec['S'], rec['pc'], rec['mask'], o['st'], o['finite'], meas, rec['src'],
-                                ill=ill)
+                                ill=ill, gs=(o['gsb'], o['gsa']))
+        elif rec.get('kind') == 'proc' and '_pseed' in rec:
+            rec = process_history(rec['_pseed'], notes)
+            print('process history re-executed: operations %s' % rec['ops'])
+            for e in rec['events']:
+                print('  ', {kk: e[kk] for kk in ('op', 'which', 'st', 'okobs', 'exc', 'gsb', 'gsa') if kk in e})
         else:
             print('recorded observation (re-judged by TLC as recorded; regenerate with VERIF_SEED=%s):' % case.get('seed'))
         b, _cmp = judge_records(ctx, [rec])
